@@ -542,9 +542,12 @@ class Overlay:
         self.global_substs = []
         self.cfgname = None
 
-    def load(self, path):
+    def load(self, path, assumed=False):
+        """assumed=True: every function contract of this overlay is emitted as an assumed contract
+        (external_body); its body is verified by another unit that loads the same overlay normally"""
         from common import read
         self.files.append(path)
+        self._assumed = assumed
         lines = read(path).split("\n")
         rel = os.path.relpath(path, os.path.dirname(os.path.dirname(os.path.abspath(__file__))))
         mod, cur, i = "crate", None, 0
@@ -593,6 +596,8 @@ class Overlay:
             elif d == "@fn":
                 a = arg.split()
                 cur = FnContract(a[0], a[1] if len(a) > 1 else "verify", (rel, i))
+                if self._assumed and cur.mode == "verify":
+                    cur.mode = "assumed"
                 cur.props = [x for x in a[2:]]
                 if cur.path in self.fns:
                     raise ExtractError("%s:%d: duplicate contract for %s" % (rel, i, cur.path))
@@ -1384,6 +1389,8 @@ def assemble(repo, unit, cfg, opts=None):
     opts = dict(unit.get("opts") or {}, **(opts or {}))   # unit-level rule options, overridable per run
     ov = Overlay()
     ov.cfgname = cfg.name
+    for p in unit.get("assumed_overlays", []):
+        ov.load(p, assumed=True)
     for p in unit["overlays"]:
         ov.load(p)
     table = load_sources(repo, unit["files"], cfg)
@@ -1397,9 +1404,17 @@ def assemble(repo, unit, cfg, opts=None):
         asm.emit(read(p), "verif:" + os.path.relpath(p, os.path.dirname(os.path.dirname(os.path.abspath(__file__)))), 1)
     asm.emit("verus! {\n")
     verif_root = os.path.dirname(os.path.dirname(os.path.abspath(__file__)))
-    for p in unit.get("prelude", []) + unit.get("spec", []):
+    for p in unit.get("prelude", []):
         asm.emit(read(p), "verif:" + os.path.relpath(p, verif_root), 1)
         asm.emit("\n")
+    # the specification and its lemmas live in their own module so that a unit can leave their
+    # proofs to the lemma unit that verifies exactly this module (`verify_spec`)
+    if unit.get("spec"):
+        asm.emit("pub use crate::vf_spec::*;\npub mod vf_spec {\nuse vstd::prelude::*;\nuse crate::*;\n")
+        for p in unit.get("spec", []):
+            asm.emit(read(p), "verif:" + os.path.relpath(p, verif_root), 1)
+            asm.emit("\n")
+        asm.emit("} // mod vf_spec\n")
     # group requested items by module, keep source order
     wanted = {}
     for path, f, l in ov.items:
@@ -1526,7 +1541,7 @@ def assemble(repo, unit, cfg, opts=None):
                 asm.emit(";\n")
                 asm.end_fn()
                 return
-            if mode == "trusted":
+            if mode in ("trusted", "assumed"):
                 asm.emit("#[verifier::external_body]\n")
             sigtoks, spec, body = rewrite_fn(it, fc, cfg, opts, ov)
             sigtoks = strip_vis(sigtoks)
@@ -1551,7 +1566,7 @@ def assemble(repo, unit, cfg, opts=None):
             if spec:
                 asm.emit("\n")
                 asm.emit_toks(spec)
-            if mode == "trusted":
+            if mode in ("trusted", "assumed"):
                 asm.emit("{ unimplemented!() }\n")
             else:
                 asm.emit_toks(body)
@@ -1624,6 +1639,7 @@ def assemble(repo, unit, cfg, opts=None):
         asm.emit(read(p), "verif:" + os.path.relpath(p, verif_root), 1)
         asm.emit("\n")
     asm.emit("} // verus!\nfn main() {}\n")
+    asm.modules = ["crate"] + mods
     text, linemap = asm.finish()
     return text, linemap, asm, ov, table
 
